@@ -87,7 +87,8 @@ class Harness:
         if kid in self.known:
             self.known_seen.setdefault(kid, text)
             return True
-        self.problem(S, form, text)
+        # not (or no longer) an OPEN known finding: the defect is a violation like any other
+        self.problem(S, form, f"{kid}: {text}")
         return False
 
     # -- one form ---------------------------------------------------------------------------------
